@@ -133,8 +133,9 @@ mutual
     | .name _ => true
     | .attribute o _ => cleanB o
     | .subscript o i => cleanB o && cleanB i && plainIndexB i
-    | .tuple es => simpleTBL es
-    | .list es => simpleTBL es
+    | .tuple es => simpleTBL es && decide (starCount es ≤ 1)
+    | .list es => simpleTBL es && decide (starCount es ≤ 1)
+    | .starred sub => simpleTB sub
     | _ => false
   def simpleTBL : List Expr → Bool
     | [] => true
@@ -148,14 +149,18 @@ mutual
     | .subscript o i, h => by
         simp only [simpleTB, Bool.and_eq_true] at h
         exact .sub _ _ (cleanB_sound _ h.1.1) (cleanB_sound _ h.1.2) (plainIndexB_sound _ h.2)
-    | .tuple es, h => .tuple es (simpleTBL_sound es (by simpa [simpleTB] using h))
-    | .list es, h => .list es (simpleTBL_sound es (by simpa [simpleTB] using h))
+    | .tuple es, h => by
+        simp only [simpleTB, Bool.and_eq_true, decide_eq_true_eq] at h
+        exact .tuple es (simpleTBL_sound es h.1) h.2
+    | .list es, h => by
+        simp only [simpleTB, Bool.and_eq_true, decide_eq_true_eq] at h
+        exact .list es (simpleTBL_sound es h.1) h.2
+    | .starred sub, h => .starred sub (simpleTB_sound sub (by simpa [simpleTB] using h))
     | .const _, h => by simp [simpleTB] at h
     | .joinedStr _, h => by simp [simpleTB] at h
     | .formattedValue .., h => by simp [simpleTB] at h
     | .set _, h => by simp [simpleTB] at h
     | .dict _, h => by simp [simpleTB] at h
-    | .starred _, h => by simp [simpleTB] at h
     | .slice .., h => by simp [simpleTB] at h
     | .call .., h => by simp [simpleTB] at h
     | .binOp .., h => by simp [simpleTB] at h
